@@ -164,6 +164,7 @@ def run(ctx):
         if fm is not None:
             c16.r16_1(c, fb, fm)
             c16.r16_2(c, fb, fm)
+            c16.r16_6(c, fb, fm)
         c16.r16_4(c, fb)
     flatten_rules.__name__ = 'r16_flatten'
     engine.run_rules(ctx, [r17_4, flatten_rules])
